@@ -1,5 +1,5 @@
 SPECIFICATION Spec
 CONSTANTS
   Tier = "quick"
-INVARIANTS PointwiseOK OnePull ResumeAt ExhExact SilentAfter SrcFrames CollectLen TakeN Interleaved
+INVARIANTS PointwiseOK OnePull ResumeAt ExhExact SilentAfter SrcFrames CollectLen TakeN Interleaved IterNth
 CHECK_DEADLOCK FALSE
